@@ -367,6 +367,8 @@ def canon_auth(a):
         return {"t": "CustomAuth", "username": a.username, "password": a.password}
     if name.startswith("EdgeAuth"):
         return {"t": "EdgeAuth", "n": int(a.auth_id), "token": _hx(a.token)}
+    if name == "SubSimple":
+        return {"t": "SubSimple", "password": a.password}
     return {"t": "?" + name, "repr": _generic(a)}
 
 
